@@ -105,7 +105,7 @@ def rename_refs(sc, old, new):
 
 MUTATIONS = ["drop_state_field", "drop_scope_field", "rename_state", "retarget", "retag", "wrong_type", "dup_names",
              "empty_object", "empty_branches", "drop_state", "junk_member", "end_false", "catcher", "timestamp", "two",
-             "numeric_field", "dangling_all", "empty_startat"]
+             "numeric_field", "dangling_all", "empty_startat", "cross_scope_ref", "template_value"]
 
 
 def mutate(rng, m, op=None):
@@ -253,6 +253,35 @@ def mutate(rng, m, op=None):
                 {"StartAt": "", "States": {"EB": {"Type": "Pass", "End": True}}}]}
         else:
             m["StartAt"] = ""
+    elif op == "cross_scope_ref":
+        # a transition into another States field (a state of an enclosing, nested or sibling scope) that orphans nothing:
+        # the scope gets a new first state, a Choice whose rule always matches and names the foreign state, with the old
+        # StartAt as its Default — every state of the scope keeps an incoming transition, so the foreign reference is the
+        # only thing a validator can object to, and the engine meets it as soon as the scope is entered
+        foreign = [n for n in all_names(m) if n not in sts]
+        old = sc.get("StartAt")
+        if rng.random() < 0.5 and isinstance(m.get("StartAt"), str) and not {"XS", "XP"} & set(all_names(m)):
+            # ... met at once: the whole machine becomes the only branch of a new Parallel state XP, and the branch's new
+            # first state transitions to XP itself (a state of the enclosing States field)
+            inner = {"StartAt": "XS", "States": dict({"XS": {"Type": "Choice", "Choices": [
+                {"Variable": "$", "IsPresent": True, "Next": "XP"}], "Default": m["StartAt"]}}, **m["States"])}
+            for k in list(m):
+                del m[k]
+            m.update({"StartAt": "XP", "States": {"XP": {"Type": "Parallel", "End": True, "Branches": [inner]}}})
+        elif foreign and isinstance(old, str) and old in sts and "XS" not in all_names(m):
+            sc["States"] = dict({"XS": {"Type": "Choice", "Choices": [{"Variable": "$", "IsPresent": True, "Next": rng.choice(foreign)}],
+                                        "Default": old}}, **sts)
+            sc["StartAt"] = "XS"
+        else:
+            st["Next"] = "Nowhere"
+            st.pop("End", None)
+    elif op == "template_value":
+        # a payload template member whose name ends in ".$" with a value of any JSON type, or a string that is neither a
+        # path nor an intrinsic call (the validator looks into Parameters / ItemSelector / ResultSelector)
+        if isinstance(st, dict):
+            val = rng.choice(JUNK + ["garbage", "$.x", "States.Array(1)", "States.Nope(1)", ""])
+            tmpl = {"a.$": val} if rng.random() < 0.6 else {"n": {"b.$": val}, "l": [{"c.$": val}]}
+            st[rng.choice(["Parameters", "ResultSelector", "ItemSelector"])] = tmpl
     elif op == "junk_member":
         sts[rng.choice(["J", "", name + "j"])] = rng.choice(JUNK)
     elif op == "end_false":
@@ -724,7 +753,7 @@ def run(chk):
     chk.cov["streams"]["engine_runs_definitions"] = engine_runs
     chk.cov["streams"]["engine_runs_poison_events"] = n_events
     chk.cov["rule"] = ("definitions = %d generated well-formed machines, %d single/double mutations of generated machines "
-                       "(drop/rename/retarget/retag fields and states, wrong JSON types, duplicate names across nesting levels, "
+                       "(drop/rename/retarget/retag fields and states, a transition into another States field that orphans nothing, wrong JSON types, duplicate names across nesting levels, "
                        "empty objects, empty Branches), %d arbitrary JSON values; each through StateLint.validate and Machine.WF; "
                        "every accepted-but-not-WF definition, a sample of accepted-and-WF ones and a sample of rejected ones "
                        "(stored anyway) run on the real engine beside a healthy execution, with a further execution afterwards; "
